@@ -5,7 +5,7 @@ CONSTANTS
   InitCaches = {0}
   StateNums = {1, 2, 3}
   MaxGen = 4
-  MaxOps = 12
+  MaxOps = 16
   UserOps = {"list", "pop0", "pop1"}
   MonotoneDesc = FALSE
   Deviations = {}
